@@ -54,7 +54,7 @@ def admissible_base(R, v, ty):
 
 
 def generate(R, tier):
-    n = 5000 if tier == "quick" else 600000
+    n = 12000 if tier == "quick" else 600000
     for _ in range(n):
         ty = R.choice([2, 2, 0x12])
         wspec, p, _ = G.rand_wire_pkt(R, flags=ty)
